@@ -76,6 +76,9 @@ class AbstractExcelInPython(ABC):
         
         def __ge__(self, other: Any) -> bool:
             return self.__eq__(other) or self.__gt__(other)
+
+        def __ne__(self, other: Any) -> bool:
+            return not self.__eq__(other)
     
     
     def _by_operator(self, operator: str, left_operand: str | int | float | datetime.datetime, right_operand: str | int | float | datetime.datetime) -> bool:
